@@ -300,6 +300,23 @@ for _pl, _f, _prop in REC_PLANNERS:
         canaries=[dict(name="approximate_not_strictly_closer", where="body:record", rx=r"if \(dist < approxdif\)", repl="if (dist > approxdif)")]))
 UNITS += REC_UNITS["C01"]
 
+KPF = "src/ompl/geometric/planners/kpiece/src/KPIECE1.cpp"
+KPI_RULES = [
+    (r"Motion \*existing = nullptr;", "MotionRef existing = NIL;", 0), (r"Discretization<Motion>::Cell \*ecell = nullptr;", "CellRef ecell = NIL;", 0), (r"disc_\.selectMotion\(existing, ecell\);", "SELECT_MOTION(&existing, &ecell);", 0),
+    (r"assert\(existing\);", "", 0),
+    (r"if \(\(goal_s != nullptr\) && rng_\.uniform01\(\) < goalBias_ && goal_s->canSample\(\)\)\s*goal_s->sampleGoal\(xstate\);\s*else\s*sampler_->sampleUniformNear\(xstate, existing->state, maxDistance_\);", "SAMPLE();", 0),
+    (r"std::pair<base::State \*, double> fail\(xstate, 0\.0\);", "FailPair fail = {xstate, 0.0};", 0), (r"si_->checkMotion\(existing->state, xstate, fail\)", "CHECK_MOTION_LV(existing, xstate, &fail)", 0),
+    (r"auto \*motion = new Motion\(si_\);", "MotionRef motion = NEW_MOTION();", 0), (r"si_->copyState\(motion->state, xstate\);", "M_cid[motion] = *xstate;", 0), (r"motion->parent = existing;", "M_parent[motion] = existing;", 0),
+    (r"bool solv = goal->isSatisfied\(motion->state, &dist\);", "bool solv = GOAL_SAT(motion, &dist);", 0), (r"projectionEvaluator_->computeCoordinates\(motion->state, xcoord\);", "", 0),
+    (r"disc_\.addMotion\(motion, xcoord, dist\);", "ADD_TO_DISC(motion);", 0), (r"ecell->data->score \*= failedExpansionScoreFactor_;", "{ C_score[ecell] *= failedExpansionScoreFactor_; cell_dirty[ecell] = true; }", 0),
+    (r"disc_\.updateCell\(ecell\);", "UPDATE_CELL(ecell);", 0), (r"\bnullptr\b", "NIL", 0),
+]
+UNITS.append(dict(name="c01_kpiece1_iteration", template="C01/kpiece_iter.c", mode="plain", entry="h_kp_iteration", flags=["--bounds-check", "--pointer-check"], unwind=5, level="bounded", bound="one iteration", backend="cadical", timeout=300,
+                  functions=["ompl::geometric::KPIECE1::solve (one iteration: selection, expansion, admission, cell update)"],
+                  sources=[dict(name="kp_iteration", file=KPF, begin=r"Motion \*existing = nullptr;\s*Discretization<Motion>::Cell \*ecell = nullptr;", end=r"disc_\.updateCell\(ecell\);", end_inclusive=True, rules=KPI_RULES, loops={"allow_uncontracted": True}, wrap_braces=False)],
+                  canaries=[dict(name="cell_not_resorted_after_a_failed_expansion", where="body:kp_iteration", rx=r"UPDATE_CELL\(ecell\);", repl="if (keep) UPDATE_CELL(ecell);"),
+                            dict(name="partial_motion_accepted_without_threshold", where="body:kp_iteration", rx=r"M_cid\[motion\] = \*xstate;", repl="M_cid[motion] = *xstate + 1;")]))
+
 # roadmap planners: a new problem definition forgets the old query's start/goal milestones (otherwise the old query's path is reported for the new one) -- units of C03
 def _c03_query_units():
     sp = importlib.util.spec_from_file_location("c03q", os.path.join(os.path.dirname(__file__), "C03.py")); m = importlib.util.module_from_spec(sp)
